@@ -2,6 +2,7 @@ from datetime import date, datetime
 from typing import Any
 from uuid import UUID
 
+from d42.declaration._is_ellipsis import is_ellipsis
 from d42.declaration.types import (
     BoolSchema,
     BytesSchema,
@@ -34,6 +35,8 @@ def from_native(value: Any) -> GenericSchema:
     elif isinstance(value, list):
         return ListSchema()([from_native(x) for x in value])
     elif isinstance(value, dict):
+        if any(is_ellipsis(key) for key in value):
+            raise ValueError(value)
         return DictSchema()({key: from_native(val) for key, val in value.items()})
     elif isinstance(value, bytes):
         return BytesSchema()(value)
